@@ -8,6 +8,7 @@ package encrypted_leaseset
 //@ import i2pd "github.com/go-i2p/common/data"
 //@ import "github.com/go-i2p/common/offline_signature"
 //@ import sig "github.com/go-i2p/common/signature"
+//@ import "crypto/ed25519"
 
 //@ spec func be32(v uint32) []byte { return []byte{byte(v >> 24), byte(v >> 16), byte(v >> 8), byte(v)} }
 //@ spec func be16(v uint16) []byte { return []byte{byte(v >> 8), byte(v)} }
@@ -58,3 +59,14 @@ package encrypted_leaseset
 //@   ensures @C05 err == nil ==> sigvalid(ELSSigKey(els), cat([]byte{ENCRYPTED_LEASESET_DBSTORE_TYPE}, ELSContent(els)), sig.SigData(els.signature))
 //@   ensures @C05 err == nil && ELSOffline(els) ==> sigvalid(els.blindedPublicKey, offline_signature.OffSignedData(els.offlineSignature), offline_signature.OffSig(els.offlineSignature))
 //@   modifies nothing
+
+// ---- C06: what NewEncryptedLeaseSet signs with the private half of the
+// blinded key, Verify accepts (no offline keys; Ed25519 / RedDSA key).
+//@ option C06_EncryptedSignThenVerify nocontract EncryptedLeaseSet.Verify
+//@ lemma C06_EncryptedSignThenVerify(sigType uint16, bpk []byte, published uint32, expires uint16, inner []byte, priv ed25519.PrivateKey) {
+//@   assume(len(priv) == 64 && seqeq(bpk, priv[32:]))
+//@   els, err := NewEncryptedLeaseSet(sigType, bpk, published, expires, 0, nil, inner, priv)
+//@   if err == nil {
+//@     assert(els.Verify() == nil)
+//@   }
+//@ }
